@@ -83,6 +83,43 @@ def cond_desc(body, conds, keep_try=False):
     return out
 
 
+def leads_only_to_error(body, start):
+    """every way of finishing the function from block `start` returns an Err (or a propagated residual)"""
+    reach = {b for b in body.reach_from(start) if not body.blocks[b]["cleanup"]}
+    kinds = set()
+    for (bi, si, kind, pay) in body.defs().get(0, []):
+        if bi not in reach:
+            continue
+        if kind == "assign":
+            rv = pay["rv"]
+            if rv["k"] == "agg" and rv.get("variant") == "Err":
+                kinds.add("err")
+            else:
+                kinds.add("other")
+        else:
+            kinds.add("err" if re.search(r"FromResidual.*::from_residual$", callee_name(pay)) else "other")
+    return kinds == {"err"}
+
+
+def drop_error_guards(body, conds):
+    """remove guards whose untaken side can only end in an error return (bounds/validity checks written as
+    `if bad { return Err(..) }` — they gate nothing but the error, like the `?` after `.ok_or(..)`)"""
+    out = []
+    for (sb, d, vals, excl) in conds:
+        t = body.term(sb)
+        taken = set()
+        tm = {int(v): tgt for v, tgt in t["ts"]}
+        if vals is not None:
+            taken = {tm.get(v, t["o"]) for v in vals}
+        else:
+            taken = {t["o"]}
+        others = [x for x in set(list(tm.values()) + [t["o"]]) if x not in taken and body.blocks[x]["t"]["k"] != "unreachable"]
+        if others and all(leads_only_to_error(body, x) for x in others):
+            continue
+        out.append((sb, d, vals, excl))
+    return out
+
+
 def straight_to_switch(body, bb, limit=12):
     """follow the single-successor chain from block bb to the next switch block"""
     cur = bb
